@@ -108,6 +108,9 @@ pub struct Case {
     pub files: Vec<FileSpec>,
     pub excludes: Vec<String>,
     pub modules_identifier: Option<String>,
+    /// luau mode: alias name (as written in requires, e.g. `@pkg`) -> location relative to the
+    /// project location (= the directory of the entry file when the configuration is given in memory)
+    pub aliases: Vec<(String, String)>,
 }
 
 // ------------------------------------------------------------------ paths (own resolver)
@@ -150,36 +153,137 @@ pub fn extension(path: &str) -> Option<&str> {
     }
 }
 
-/// Documented resolution (docs: path-require-mode / luau-require-mode): relative to the
-/// requiring file's directory (Luau: a file named `init` stands for its directory, so relative to
-/// the directory's parent); the exact path, then `.luau`, `.lua`, then `init` inside the
-/// directory (`init`, `init.luau`, `init.lua`); a `.lua`/`.luau` path is taken as is.
-pub fn resolve(mode: Mode, source: &str, literal: &str, files: &BTreeSet<String>) -> Result<String, String> {
-    let mut base = dirname(source).to_owned();
-    if mode == Mode::Luau {
-        let name = filename(source);
-        if name == "init.lua" || name == "init.luau" {
+/// Everything resolution depends on besides the requiring file and the literal.
+#[derive(Clone, Debug)]
+pub struct Resolver {
+    pub mode: Mode,
+    pub files: BTreeSet<String>,
+    pub aliases: Vec<(String, String)>,
+    /// project location: directory of the entry file
+    pub project: String,
+}
+
+fn is_init(source: &str) -> bool {
+    let name = filename(source);
+    name == "init.lua" || name == "init.luau"
+}
+
+impl Resolver {
+    /// directory a literal is joined to, and the part of the literal that is joined
+    /// (docs: path-require-mode / luau-require-mode, Luau RFCs):
+    ///  * `./x`, `../x`: the requiring file's directory (Luau: a file named `init` stands for its
+    ///    directory, so relative to the directory's parent);
+    ///  * Luau `@self/x`: inside the requiring file's own directory (never the parent);
+    ///  * Luau `<alias>/x`: the alias location, relative to the project location — the same file
+    ///    whoever requires it.
+    fn base_of(&self, source: &str, literal: &str) -> Option<(String, String)> {
+        if literal.starts_with("./") || literal.starts_with("../") || literal == "." || literal == ".." {
+            let mut base = dirname(source).to_owned();
+            if self.mode == Mode::Luau && is_init(source) {
+                base = dirname(&base).to_owned();
+            }
+            return Some((base, literal.to_owned()));
+        }
+        if self.mode != Mode::Luau {
+            return None;
+        }
+        let (head, rest) = match literal.find('/') {
+            Some(i) => (&literal[..i], &literal[i + 1..]),
+            None => (literal, ""),
+        };
+        if head == "@self" {
+            return Some((dirname(source).to_owned(), rest.to_owned()));
+        }
+        self.aliases.iter().find(|(name, _)| name == head).map(|(_, location)| (normalize(&format!("{}/{}", self.project, location)), rest.to_owned()))
+    }
+
+    /// the exact path, then `.luau`, `.lua`, then `init` inside the directory (`init`,
+    /// `init.luau`, `init.lua`); a `.lua`/`.luau` path is taken as is.
+    pub fn resolve(&self, source: &str, literal: &str) -> Result<String, String> {
+        let (base, rest) = match self.base_of(source, literal) {
+            Some(x) => x,
+            None => return Err(literal.to_owned()),
+        };
+        let joined = normalize(&format!("{}/{}", base, rest));
+        let candidates: Vec<String> = match extension(&joined) {
+            Some("lua") | Some("luau") => vec![joined.clone()],
+            _ => vec![
+                joined.clone(),
+                format!("{}.luau", joined),
+                format!("{}.lua", joined),
+                format!("{}/init", joined),
+                format!("{}/init.luau", joined),
+                format!("{}/init.lua", joined),
+            ],
+        };
+        for c in candidates {
+            if self.files.contains(&c) {
+                return Ok(c);
+            }
+        }
+        Err(joined)
+    }
+
+    /// a spelling of `target` as seen from `source`, checked with `resolve`
+    pub fn spell(&self, rng: &mut Rng, source: &str, target: &str) -> String {
+        let mut base = dirname(source).to_owned();
+        if self.mode == Mode::Luau && is_init(source) {
             base = dirname(&base).to_owned();
         }
-    }
-    let joined = normalize(&format!("{}/{}", base, literal));
-    let candidates: Vec<String> = match extension(&joined) {
-        Some("lua") | Some("luau") => vec![joined.clone()],
-        _ => vec![
-            joined.clone(),
-            format!("{}.luau", joined),
-            format!("{}.lua", joined),
-            format!("{}/init", joined),
-            format!("{}/init.luau", joined),
-            format!("{}/init.lua", joined),
-        ],
-    };
-    for c in candidates {
-        if files.contains(&c) {
-            return Ok(c);
+        let plain = relative(&base, target);
+        let strip = |plain: &str| -> Vec<String> {
+            let mut options = vec![plain.to_owned()];
+            if let Some(stripped) = plain.strip_suffix(".lua").or_else(|| plain.strip_suffix(".luau")) {
+                options.push(stripped.to_owned());
+                options.push(stripped.to_owned());
+                if let Some(dir) = stripped.strip_suffix("/init") {
+                    if dir != "." && dir != ".." && !dir.ends_with("/..") && !dir.starts_with('@') || dir.contains('/') {
+                        options.push(dir.to_owned());
+                        options.push(dir.to_owned());
+                    }
+                }
+            }
+            options
+        };
+        let mut options = strip(&plain);
+        if self.mode == Mode::Luau {
+            // `@self/…` when the target lives below the requiring file's directory
+            let own = format!("{}/", dirname(source));
+            if let Some(rest) = target.strip_prefix(&own) {
+                for o in strip(&format!("@self/{}", rest)) {
+                    options.push(o.clone());
+                    options.push(o);
+                }
+            }
+            for (name, location) in &self.aliases {
+                let dir = format!("{}/", normalize(&format!("{}/{}", self.project, location)));
+                if let Some(rest) = target.strip_prefix(&dir) {
+                    for o in strip(&format!("{}/{}", name, rest)) {
+                        options.push(o.clone());
+                        options.push(o);
+                    }
+                }
+            }
         }
+        let mut choice = rng.pick(&options).clone();
+        // noise: `x/../`, `./`
+        if rng.chance(1, 3) {
+            let (head, tail) = match choice.find('/') {
+                Some(i) => (choice[..i].to_owned(), choice[i + 1..].to_owned()),
+                None => (choice.clone(), String::new()),
+            };
+            if !tail.is_empty() {
+                let noise = *rng.pick(&["sub/..", ".", "zz/..", "./.", "sub/deep/../.."]);
+                choice = format!("{}/{}/{}", head, noise, tail);
+            }
+        }
+        for candidate in [choice, plain.clone()] {
+            if self.resolve(source, &candidate).as_deref() == Ok(target) {
+                return candidate;
+            }
+        }
+        plain
     }
-    Err(joined)
 }
 
 /// relative spelling of `target` from directory `base` (both normalised)
@@ -202,44 +306,6 @@ fn relative(base: &str, target: &str) -> String {
         parts.push((*p).to_owned());
     }
     parts.join("/")
-}
-
-/// a spelling of `target` as seen from `source`, checked with `resolve`
-pub fn spell(rng: &mut Rng, mode: Mode, source: &str, target: &str, files: &BTreeSet<String>) -> String {
-    let mut base = dirname(source).to_owned();
-    if mode == Mode::Luau && (filename(source) == "init.lua" || filename(source) == "init.luau") {
-        base = dirname(&base).to_owned();
-    }
-    let plain = relative(&base, target);
-    let mut options: Vec<String> = vec![plain.clone()];
-    if let Some(stripped) = plain.strip_suffix(".lua").or_else(|| plain.strip_suffix(".luau")) {
-        options.push(stripped.to_owned());
-        options.push(stripped.to_owned());
-        if let Some(dir) = stripped.strip_suffix("/init") {
-            if dir != "." && dir != ".." && !dir.ends_with("/..") {
-                options.push(dir.to_owned());
-                options.push(dir.to_owned());
-            }
-        }
-    }
-    let mut choice = rng.pick(&options).clone();
-    // noise: `x/../`, `./`
-    if rng.chance(1, 3) {
-        let (head, tail) = match choice.find('/') {
-            Some(i) => (choice[..i].to_owned(), choice[i + 1..].to_owned()),
-            None => (choice.clone(), String::new()),
-        };
-        if !tail.is_empty() {
-            let noise = *rng.pick(&["sub/..", ".", "zz/..", "./.", "sub/deep/../.."]);
-            choice = format!("{}/{}/{}", head, noise, tail);
-        }
-    }
-    for candidate in [choice, plain.clone()] {
-        if resolve(mode, source, &candidate, files).as_deref() == Ok(target) {
-            return candidate;
-        }
-    }
-    plain
 }
 
 // ------------------------------------------------------------------ excludes (own matcher)
@@ -446,6 +512,17 @@ pub fn gen_map(rng: &mut Rng, depth: usize, allow_null: bool) -> DataValue {
     DataValue::Map(keys.into_iter().map(|k| { let v = gen_data(rng, depth.saturating_sub(1), allow_null); (k, v) }).collect())
 }
 
+impl Case {
+    pub fn resolver(&self) -> Resolver {
+        Resolver {
+            mode: self.mode,
+            files: self.files.iter().map(|f| f.path.clone()).collect(),
+            aliases: self.aliases.clone(),
+            project: dirname(&self.files[0].path).to_owned(),
+        }
+    }
+}
+
 // ------------------------------------------------------------------ rendering
 
 /// one require call site as the bundler should see it (in source order)
@@ -465,6 +542,7 @@ pub struct Rendered {
     pub files: Vec<(String, String)>,
     pub excludes: Vec<String>,
     pub modules_identifier: Option<String>,
+    pub aliases: Vec<(String, String)>,
     /// per file (same order as `files`): its call sites; `None` for non-Lua or unparseable files
     pub sites: Vec<Vec<SiteInfo>>,
     /// per file: "lua:one" "lua:none" "lua:many" "data" "parse-error" "bad-ext"
@@ -498,7 +576,7 @@ fn observe(var: &str, kind: Kind) -> String {
 const REF_REQUIRE: &str = "__ref_require";
 
 /// renders one Lua file twice: the real source and the reference body
-fn render_lua(case: &Case, file_index: usize, files: &BTreeSet<String>) -> (String, String, Vec<SiteInfo>) {
+fn render_lua(case: &Case, file_index: usize, resolver: &Resolver) -> (String, String, Vec<SiteInfo>) {
     let spec = &case.files[file_index];
     let (prefix, items, ret, kind, syntax_error) = match &spec.kind {
         FileKind::Lua { prefix, items, ret, kind, syntax_error } => (prefix, items, *ret, *kind, *syntax_error),
@@ -548,7 +626,7 @@ fn render_lua(case: &Case, file_index: usize, files: &BTreeSet<String>) -> (Stri
                 let target = if case.excludes.iter().any(|e| glob_match(e, &literal_for_exclude(literal))) {
                     "excluded".to_owned()
                 } else {
-                    match resolve(case.mode, &spec.path, literal, files) {
+                    match resolver.resolve(&spec.path, literal) {
                         Ok(p) => format!("file:{}", p),
                         Err(q) => format!("notfound:{}", q),
                     }
@@ -655,12 +733,13 @@ pub fn data_text(path: &str, value: &DataValue, malformed: bool) -> String {
 }
 
 pub fn render(case: &Case) -> Rendered {
-    let file_set: BTreeSet<String> = case.files.iter().map(|f| f.path.clone()).collect();
+    let resolver = case.resolver();
     let mut out = Rendered {
         mode: case.mode.name().to_owned(),
         entry: case.files[0].path.clone(),
         excludes: case.excludes.clone(),
         modules_identifier: case.modules_identifier.clone(),
+        aliases: case.aliases.clone(),
         ..Default::default()
     };
     let mut reference_bodies: BTreeMap<String, String> = BTreeMap::new();
@@ -668,7 +747,7 @@ pub fn render(case: &Case) -> Rendered {
     for (i, spec) in case.files.iter().enumerate() {
         match &spec.kind {
             FileKind::Lua { ret, syntax_error, .. } => {
-                let (real, refr, sites) = render_lua(case, i, &file_set);
+                let (real, refr, sites) = render_lua(case, i, &resolver);
                 out.files.push((spec.path.clone(), real));
                 if *syntax_error {
                     out.sites.push(Vec::new());
@@ -715,9 +794,11 @@ pub fn render(case: &Case) -> Rendered {
 
 // ------------------------------------------------------------------ case generation
 
-pub const LUA_POOL: [&str; 12] = [
+pub const LUA_POOL: [&str; 18] = [
     "src/a.lua", "src/b.luau", "src/c.lua", "src/sub/d.lua", "src/sub/init.lua", "src/sub/deep/e.luau", "src/util/init.luau",
     "lib/f.lua", "src/g.lua", "src/sub/deep/init.lua", "lib/h/i.lua", "src/a/init.lua",
+    // the same tail in several directories: `@self/util`, `./util` mean different files there
+    "src/util.lua", "src/sub/util.lua", "src/sub/deep/util.lua", "lib/util.lua", "lib/h/util.lua", "lib/h/init.lua",
 ];
 pub const DATA_POOL: [&str; 7] = [
     "src/data/cfg.json", "src/data/cfg.json5", "src/data/info.yaml", "src/data/info.yml", "src/data/conf.toml", "src/data/note.txt", "lib/k.json",
@@ -765,7 +846,20 @@ pub fn gen_case(rng: &mut Rng, opts: &GenOptions, prefix_gen: &mut dyn FnMut(&mu
     paths.extend(lua_paths.iter().map(|s| (*s).to_owned()));
     paths.extend(data_paths.iter().map(|s| (*s).to_owned()));
     let mut extra_files: Vec<FileSpec> = Vec::new();
-    let file_set: BTreeSet<String> = paths.iter().cloned().collect();
+    let aliases: Vec<(String, String)> = if mode == Mode::Luau && rng.chance(1, 2) {
+        let mut a = vec![("@pkg".to_owned(), "../lib".to_owned())];
+        if rng.chance(1, 2) {
+            a.push(("@sub".to_owned(), "./sub".to_owned()));
+        }
+        // aliases without a leading `@` are a listed C15 finding (never consulted in luau mode): not generated
+        if rng.chance(1, 3) {
+            a.push(("@data".to_owned(), "data".to_owned()));
+        }
+        a
+    } else {
+        Vec::new()
+    };
+    let resolver = Resolver { mode, files: paths.iter().cloned().collect(), aliases: aliases.clone(), project: "src".to_owned() };
     let excludes: Vec<String> = if rng.chance(1, 3) {
         let mut e = vec![(*rng.pick(&["@ext/**", "./vendor/**", "**/*.skip", "./ext/thing"])).to_owned()];
         if rng.chance(1, 3) {
@@ -797,18 +891,18 @@ pub fn gen_case(rng: &mut Rng, opts: &GenOptions, prefix_gen: &mut dyn FnMut(&mu
         let n_deps = if later.is_empty() { 0 } else { rng.below(4).min(later.len() + 1) };
         for _ in 0..n_deps {
             let j = *rng.pick(&later);
-            let literal = spell(rng, mode, &path, &paths[j], &file_set);
+            let literal = resolver.spell(rng, &path, &paths[j]);
             let shadow_block = i == 0 && rng.chance(1, 12);
             items.push(Item::Site { literal: literal.clone(), form: pick_form(rng), shadow_block });
             if rng.chance(1, 4) {
                 // the same file again, spelled differently
-                let literal = spell(rng, mode, &path, &paths[j], &file_set);
+                let literal = resolver.spell(rng, &path, &paths[j]);
                 items.push(Item::Site { literal, form: pick_form(rng), shadow_block: false });
             }
         }
         if opts.cycles && i > 0 && rng.chance(1, 3) {
             let j = rng.below(i + 1);
-            let literal = spell(rng, mode, &path, &paths[j], &file_set);
+            let literal = resolver.spell(rng, &path, &paths[j]);
             items.push(Item::Site { literal, form: Form::LocalParen, shadow_block: false });
         }
         if rng.chance(1, 5) {
@@ -852,7 +946,63 @@ pub fn gen_case(rng: &mut Rng, opts: &GenOptions, prefix_gen: &mut dyn FnMut(&mu
     // the blob files need Luau-mode-agnostic literals: fix them up for init sources in luau mode
     files.extend(extra_files);
     let modules_identifier = if rng.chance(1, 6) { Some("__M".to_owned()) } else { None };
-    Case { mode, files, excludes, modules_identifier }
+    Case { mode, files, excludes, modules_identifier, aliases }
+}
+
+/// Luau mode: `k` directories, each with a module and its own `util`; every module obtains its
+/// sibling through the SAME literal (`@self/util` or `./util`), the entry requires them all, and an
+/// alias literal reaches one shared file from everywhere. A resolver that remembers the answer per
+/// literal gives every module the first directory's `util`.
+pub fn self_twins(rng: &mut Rng) -> Case {
+    let dirs_pool = ["src/one", "src/two", "src/one/inner", "lib/three", "src/four"];
+    let k = 2 + rng.below(3);
+    let mut dirs: Vec<&str> = dirs_pool.to_vec();
+    rng.shuffle(&mut dirs);
+    dirs.truncate(k);
+    let literal = if rng.chance(3, 4) { "@self/util" } else { "./util" };
+    let with_alias = rng.chance(1, 2);
+    let mut files: Vec<FileSpec> = Vec::new();
+    let mut entry_items = Vec::new();
+    let mut paths: Vec<String> = vec!["src/main.lua".to_owned()];
+    let mut modules: Vec<(String, String)> = Vec::new();
+    for d in &dirs {
+        // `./util` from an init file means the parent's util in Luau mode: use plain files there
+        let module = if literal == "@self/util" && rng.chance(1, 2) { format!("{}/init.lua", d) } else { format!("{}/mod.lua", d) };
+        paths.push(module.clone());
+        paths.push(format!("{}/util.lua", d));
+        modules.push((module, format!("{}/util.lua", d)));
+    }
+    if with_alias {
+        paths.push("lib/shared.lua".to_owned());
+    }
+    let aliases = if with_alias { vec![("@pkg".to_owned(), "../lib".to_owned())] } else { Vec::new() };
+    let resolver = Resolver { mode: Mode::Luau, files: paths.iter().cloned().collect(), aliases: aliases.clone(), project: "src".to_owned() };
+    for (module, _) in &modules {
+        entry_items.push(Item::Site { literal: resolver.spell(rng, "src/main.lua", module), form: pick_form(rng), shadow_block: false });
+    }
+    if with_alias {
+        entry_items.push(Item::Site { literal: "@pkg/shared".to_owned(), form: Form::LocalParen, shadow_block: false });
+    }
+    rng.shuffle(&mut entry_items);
+    files.push(FileSpec { path: "src/main.lua".to_owned(), kind: FileKind::Lua { prefix: String::new(), items: entry_items, ret: Ret::One, kind: Kind::Num, syntax_error: false } });
+    for (module, util) in &modules {
+        let mut items = vec![Item::Site { literal: literal.to_owned(), form: pick_form(rng), shadow_block: false }];
+        if rng.chance(1, 3) {
+            items.push(Item::Site { literal: literal.to_owned(), form: pick_form(rng), shadow_block: false });
+        }
+        if with_alias {
+            items.push(Item::Site { literal: "@pkg/shared".to_owned(), form: pick_form(rng), shadow_block: false });
+        }
+        rng.shuffle(&mut items);
+        let kind = *rng.pick(&[Kind::Tbl, Kind::Fun, Kind::Str]);
+        files.push(FileSpec { path: module.clone(), kind: FileKind::Lua { prefix: String::new(), items, ret: Ret::One, kind, syntax_error: false } });
+        let kind = *rng.pick(&[Kind::Tbl, Kind::Fun, Kind::Str, Kind::Num, Kind::False]);
+        files.push(FileSpec { path: util.clone(), kind: FileKind::Lua { prefix: String::new(), items: Vec::new(), ret: Ret::One, kind, syntax_error: false } });
+    }
+    if with_alias {
+        files.push(FileSpec { path: "lib/shared.lua".to_owned(), kind: FileKind::Lua { prefix: String::new(), items: Vec::new(), ret: Ret::One, kind: Kind::Tbl, syntax_error: false } });
+    }
+    Case { mode: Mode::Luau, files, excludes: Vec::new(), modules_identifier: None, aliases }
 }
 
 /// structure-only graph on `n` nodes (node 0 = entry), edge i→j iff bit (i*n+j) of `mask`
@@ -871,5 +1021,5 @@ pub fn small_graph(n: usize, mask: u32, mode: Mode) -> Case {
             kind: FileKind::Lua { prefix: String::new(), items, ret: Ret::One, kind: Kind::Num, syntax_error: false },
         });
     }
-    Case { mode, files, excludes: Vec::new(), modules_identifier: None }
+    Case { mode, files, excludes: Vec::new(), modules_identifier: None, aliases: Vec::new() }
 }
